@@ -3,6 +3,30 @@ import itertools
 import vlib
 
 ID = "C14"
+MANIFEST = {
+    "text": "Theorems (Coq, unbounded): the 256-bucket unit table of unit.c (exact hash_index, tombstone reuse under the bucket "
+            "lock, head insertion, failing malloc) refines a finite map for every op sequence and every handle set, colliding "
+            "buckets included, and no 'get()/unmap() must succeed' assertion fires (C14_lookup, C14_hash_index); the five-way "
+            "association functions of abti_unit.h keep table, (unit,pool) fields and the create_unit/free_unit log consistent: "
+            "each handle created once per life, freed once by its pool, never mentioned after its free, live handles = units of "
+            "work units associated with user pools (C14_create_free_balanced, C14_all_freed, C14_get_thread), extended to the "
+            "public API with push/pop log entries, seeded pop policies and yield/migrate bodies (C14_api_balanced, "
+            "C14_pop_translates); a failed create_unit/map leaves table and fields unchanged in ANY state (C14_failure_atomic); "
+            "LTS with one step per shared access, any number of threads: a lock-free get overlapping maps/unmaps of other units "
+            "returns the right work unit and no assertion can fire (C14_concurrent_lookup, C14_concurrent_no_assert). "
+            "Tie: models extracted to OCaml and compared on every run with (W) an ASan/UBSan white-box copy of unit.c + the "
+            "inline functions of abti_unit.h with malloc-failure injection and (A) the -O2 library through the public API "
+            "(built-in, ABT_pool_user_def and legacy ABT_pool_def pools, handles from a PROT_NONE arena chosen to collide), "
+            "results + call log as observables and the bucket chains as white-box dump; multi-stream create/migrate/free "
+            "storms with a lookup-checker thread as monitors.",
+    "note": "Trusted: Coq kernel, extraction (ExtrOcamlBasic), the hand-written Gallina models (validated by the differential "
+            "harness, not verified against the C text), gcc/glibc. Preconditions made explicit: user handles have bit 0 clear "
+            "(hence differ from ABT_UNIT_NULL = 0x7 in this configuration) and are distinct among live units; usage contract of "
+            "the API ops (no re-association of a work unit that sits in a pool). The LTS assumes sequential consistency and "
+            "that p_next is written once before publication (the release/acquire pair on the bucket head is not checked); it "
+            "is tied to the code only by the storm monitors (no hooks). ABT_pool_push_threads (batch; documented FIXME: not "
+            "failure-atomic across the batch), pop_wait/pop_timedwait wrappers and the print_all wrappers are not modelled.",
+}
 
 # ----------------------------------------------------------------- handles
 def hidx(off):
@@ -38,7 +62,7 @@ def gen_t(rng, tier):
     a, b, c = bucket_handles(37, 3)
     d = bucket_handles(38, 1)[0]
     hs = [a, b, c]
-    maxlen = 5 if tier == "quick" else 7
+    maxlen = 5 if tier == "quick" else 8
     # exhaustive: every valid sequence of length <= maxlen over map(ok)/map(alloc fails)/unmap/get on 3
     # colliding handles
     def rec(seq, mapped, nth):
@@ -49,9 +73,8 @@ def gen_t(rng, tier):
         for h in hs:
             if h in mapped:
                 rec(seq + ["U %d" % h], mapped - {h}, nth)
-                # a get never changes the state: only useful as the last op
-                if len(seq) + 1 == maxlen or True:
-                    cases.append("T ; " + " , ".join(seq + ["G %d" % h]))
+                # a get never changes the state: emitted as a last op only
+                cases.append("T ; " + " , ".join(seq + ["G %d" % h]))
             else:
                 rec(seq + ["M %d %d 1" % (h, nth)], mapped | {h}, nth + 1)
                 # failing allocation: state changes only if a tombstone exists; python does not track that,
@@ -59,7 +82,7 @@ def gen_t(rng, tier):
                 cases.append("T ; " + " , ".join(seq + ["M %d %d 0" % (h, nth)]))
     rec([], frozenset(), 1)
     nexh = len(cases)
-    nrand = 300 if tier == "quick" else 5000
+    nrand = 600 if tier == "quick" else 20000
     for _ in range(nrand):
         nb = rng.choice([1, 1, 2, 3])
         bks = rng.sample(range(256), nb)
@@ -216,7 +239,7 @@ def gen_w(rng, tier):
         free = [h for h in (a, b, c) if h not in live]
         for th in (1, 2):
             if th not in m.thr:
-                if th == 1 or 1 in m.thr or True:
+                if True:
                     for p in (0, 1):
                         for cu, ok in ([(0, 1)] if p == 0 else [(free[0], 1), (free[0], 0), (0, 1)]):
                             ops.append(("I", th, p, cu, ok))
@@ -257,7 +280,7 @@ def gen_w(rng, tier):
                     cases.append("W %s ; %s" % (kinds, " , ".join(seq + ["G %d" % op[1]])))
     rec([], Mirror(kinds, {}), frozenset())
     nexh = len(cases)
-    nrand = 500 if tier == "quick" else 8000
+    nrand = 900 if tier == "quick" else 30000
     for _ in range(nrand):
         npool = rng.choice([2, 3, 4, 5])
         kinds = "".join(rng.choice("BUU") for _ in range(npool))
@@ -365,7 +388,7 @@ def gen_a(rng, tier):
     cases = []
     stats = {}
     opcount = {}
-    nrand = 700 if tier == "quick" else 9000
+    nrand = 1500 if tier == "quick" else 40000
     for _ in range(nrand):
         npool = rng.choice([2, 3, 4, 5])
         kinds = "".join(rng.choice("BULUL") for _ in range(npool))
@@ -567,15 +590,15 @@ def nontrivial(case):
     return case.startswith("S") or case.count(",") >= 2
 
 
-MANIFEST_DRAFT = True
 
 
 def run(tier, seed, replay):
     return vlib.run_differential_property(
         ID, "Properties_C14.v", ["Properties_C14.vo", "Extract_C14.vo"], "c14", "h_c14.c",
         gen, classify, nontrivial, tier, seed, replay=replay, san=True,
-        rule="T: every valid sequence of length<=L of map/map-with-failing-malloc/unmap/get over 3 colliding handles "
-             "(exhaustive) + seeded sequences over 1-3 buckets; W: every valid sequence of length<=L of "
+        rule="T: every valid sequence of length<=L of map/unmap over 3 colliding handles, each extended by every get / "
+             "map-with-failing-malloc as last op (these create no new state) (exhaustive) + seeded sequences over 1-3 "
+             "buckets with both in any position; W: every valid sequence of length<=L of "
              "init/set/unit_set/unset/get over 2 descriptors, pools B U U and 3 colliding handles (exhaustive) + seeded; "
              "A: seeded public-API sequences over built-in / ABT_pool_user_def / legacy ABT_pool_def pools; "
              "S: multi-stream storms (monitor). non-trivial = >=3 ops (or a storm). Distinct = distinct case text.",
